@@ -45,6 +45,8 @@ impl SecondaryStorage {
             Manifest::open(options.path.join(MANIFEST_FILE_NAME), enable_fsync).await?
         };
 
+        #[cfg(risinglight_verif)]
+        crate::verif::crash_point("boot.manifest_opened", &options.path, &[]);
         let manifest_ops = manifest.replay().await?;
 
         let options = Arc::new(options);
@@ -130,9 +132,13 @@ impl SecondaryStorage {
                         (table_id.parse::<u32>(), rowset_id.parse::<u32>())
                     && !rowsets_to_open.contains_key(&(table_id, rowset_id))
                 {
+                    #[cfg(risinglight_verif)]
+                    crate::verif::crash_point("boot.vacuum.before", entry.path(), &[]);
                     fs::remove_dir_all(entry.path())
                         .await
                         .expect("failed to vacuum unused rowsets");
+                    #[cfg(risinglight_verif)]
+                    crate::verif::crash_point("boot.vacuum.after", entry.path(), &[]);
                 }
             }
         }
@@ -165,6 +171,8 @@ impl SecondaryStorage {
             changeset.push(EpochOp::AddDV((entry, dv)));
         }
 
+        #[cfg(risinglight_verif)]
+        crate::verif::crash_point("boot.opened_all", &options.path, &[]);
         if options.disable_all_disk_operation {
             engine.version.commit_changes(changeset).await?;
         } else {
@@ -177,5 +185,28 @@ impl SecondaryStorage {
         }
 
         Ok(engine)
+    }
+}
+
+#[cfg(risinglight_verif)]
+impl SecondaryStorage {
+    /// Read-only view of the version manager, see `VersionManager::verif_state`.
+    #[allow(clippy::type_complexity)]
+    pub fn verif_state(
+        &self,
+    ) -> (
+        u64,
+        Vec<(u64, usize)>,
+        Vec<(u64, Vec<(u32, u32)>)>,
+        Vec<(u32, u32)>,
+        Vec<(u32, u32, u64)>,
+    ) {
+        self.version.verif_state()
+    }
+
+    /// Next row-set id and next DV id.
+    pub fn verif_next_ids(&self) -> (u32, u64) {
+        use std::sync::atomic::Ordering::SeqCst;
+        (self.next_id.0.load(SeqCst), self.next_id.1.load(SeqCst))
     }
 }
